@@ -353,3 +353,63 @@ func InLabelDomain(ops []LOp) bool {
 	}
 	return true
 }
+
+// TwoJumpProgram builds a program with two interacting two-way jumps: A at
+// op 0 with targets +dTA/+dFA and B at op g with targets +dTB/+dFB (distance
+// 1 = next op), fillers in between and returns at the end. ok is false when
+// a jump would have both targets on its next op.
+func TwoJumpProgram(g, dTA, dFA, dTB, dFB int, fill, tk string) (ops []LOp, ok bool) {
+	if (dTA == 1 && dFA == 1) || (dTB == 1 && dFB == 1) || g < 1 {
+		return nil, false
+	}
+	far := dTA
+	for _, v := range []int{dFA, g + dTB, g + dFB} {
+		if v > far {
+			far = v
+		}
+	}
+	n := far + 4
+	ops = make([]LOp, n)
+	for i := range ops {
+		switch {
+		case fill == "jumps" && i%2 == 0:
+			ops[i] = LOp{Kind: LJmp, Cond: int(bpf.JumpEqual), Val: uint32(i), T: i + 2, F: i + 1, ViaTrue: i%4 == 0}
+		case fill == "mixed" && i%5 == 0:
+			ops[i] = LOp{Kind: LJmp, Cond: int(bpf.JumpGreaterThan), Val: uint32(i), T: i + 1, F: i + 3}
+		default:
+			ops[i] = LOp{Kind: []LKind{LLdHi, LLdLo}[i%2], Arg: uint32(i % 6)}
+		}
+	}
+	mk := func(i int) LOp {
+		if tk == "ret" {
+			return LOp{Kind: LRet, Ret: []uint32{RetTrap, RetErrno, RetLog, RetKillProcess}[i%4]}
+		}
+		return LOp{Kind: LLdLo, Arg: uint32(i % 6)}
+	}
+	for _, t := range []int{dTA, dFA, g + dTB, g + dFB} {
+		if t != 1 && t != g+1 { // keep the ops right behind the jumps ordinary
+			ops[t] = mk(t)
+		}
+	}
+	ops[0] = LOp{Kind: LJmp, Cond: int(bpf.JumpEqual), Val: 0xa, T: dTA, F: dFA}
+	ops[g] = LOp{Kind: LJmp, Cond: int(bpf.JumpBitsSet), Val: 0xb, T: g + dTB, F: g + dFB}
+	ops[n-1] = LOp{Kind: LRet, Ret: RetAllow}
+	ops[n-2] = LOp{Kind: LRet, Ret: RetKillThread}
+	for i := range ops {
+		if ops[i].Kind == LJmp {
+			if ops[i].T > n-1 {
+				ops[i].T = n - 1
+			}
+			if ops[i].F > n-1 {
+				ops[i].F = n - 1
+			}
+			if ops[i].T == i+1 && ops[i].F == i+1 {
+				ops[i] = LOp{Kind: LLdHi, Arg: 2}
+			}
+			if ops[i].ViaTrue && ops[i].F != i+1 {
+				ops[i].ViaTrue = false
+			}
+		}
+	}
+	return ops, InLabelDomain(ops)
+}
